@@ -93,6 +93,27 @@ static void run_seg(const std::vector<std::vector<std::string>> &sec, std::ostre
     }
 }
 
+// PLA id kbits signed eps | x:y ...   direct use of OptimalPiecewiseLinearModel<K, int64_t> (signed rank type)
+template<typename K>
+static void run_pla(const std::vector<std::vector<std::string>> &sec, std::ostream &out) {
+    using Model = pgm::internal::OptimalPiecewiseLinearModel<K, int64_t>;
+    int64_t eps = (int64_t) parse_i128(sec[0][4]);
+    Model *m = nullptr;
+    try { m = new Model(eps); }
+    catch (const std::exception &e) { out << "B throw " << exn_kind(e) << "\n"; return; }
+    out << "B ok\n";
+    if (sec.size() > 1) for (auto &t : sec[1]) {
+        auto c = t.find(':');
+        K x = (K) parse_i128(t.substr(0, c)); int64_t y = (int64_t) parse_i128(t.substr(c + 1));
+        try {
+            bool ok = m->add_point(x, y);
+            out << "A " << zs(x) << " " << y << " " << (ok ? 1 : 0) << "\n";
+            if (!ok) m->add_point(x, y);
+        } catch (const std::exception &e) { out << "A " << zs(x) << " " << y << " throw " << exn_kind(e) << "\n"; break; }
+    }
+    delete m;
+}
+
 int main(int argc, char **argv) {
     if (argc >= 2 && std::string(argv[1]) == "--probe") {
         volatile double big = 1e30, neg = -5.0;
@@ -114,6 +135,15 @@ int main(int argc, char **argv) {
             if (!done && name == #nm) { out << "C " << h[1] << "\n"; run_idx<pgm::PGMIndex<K, E, ER, F>, K>(sec, out); done = true; }
 #include "idx_configs.inc"
 #undef X
+        } else if (h[0] == "PLA") {
+            int kb = std::stoi(h[2]); bool sg = h[3] == "1";
+#if IDX_GROUP == 1
+            if (kb == 32 && !sg) { out << "C " << h[1] << "\n"; run_pla<uint32_t>(sec, out); }
+            if (kb == 32 && sg) { out << "C " << h[1] << "\n"; run_pla<int32_t>(sec, out); }
+#elif IDX_GROUP == 2
+            if (kb == 64 && !sg) { out << "C " << h[1] << "\n"; run_pla<uint64_t>(sec, out); }
+            if (kb == 64 && sg) { out << "C " << h[1] << "\n"; run_pla<int64_t>(sec, out); }
+#endif
         } else if (h[0] == "SEG") {
             int kb = std::stoi(h[2]); bool sg = h[3] == "1";
 #if IDX_GROUP == 0
